@@ -198,7 +198,8 @@ func (c *c11Checker) After(w *World, ev *Event) []Failure {
 				// explains (every name/value comes back percent-decoded once, nothing else differs)?
 				dec := make([]Pair, len(real))
 				for i, p := range real {
-					dec[i] = Pair{Name: string(model.PercentDecode(p.Name)), Value: string(model.PercentDecode(p.Value))}
+					// the serializer first turns ill-formed bytes into U+FFFD, then leaves '%' alone
+					dec[i] = Pair{Name: string(model.PercentDecode(scalar(p.Name))), Value: string(model.PercentDecode(scalar(p.Value)))}
 				}
 				fs = append(fs, fail("C11.codec.roundtrip", "handle", fmt.Sprintf("s%d", sid), "list", pairsString(real), "serialized", q(ser), "parsed-back", pairsString(back),
 					"explained-by-unescaped-percent", fmt.Sprint(pairsEqual(back, dec))))
@@ -396,7 +397,7 @@ func (c *c13Checker) After(w *World, ev *Event) []Failure {
 		}
 		switch {
 		case ev.Op.K == "set":
-			applySetter(uh.Twin.U, ev.Op.W%9, string(ev.Op.A))
+			applySetter(uh.Twin.U, ev.Op.W%9, ev.Val)
 		case ev.TargetS >= 0:
 			tsp := c.twinSP[ev.TargetS]
 			if tsp == nil {
